@@ -133,7 +133,7 @@ CMR_ERROR CMRsubmatSlice(CMR* cmr, CMR_SUBMAT* base, CMR_SUBMAT* input, CMR_SUBM
   for (size_t r = 0; r < input->numRows; ++r)
   {
     size_t row = input->rows[r];
-    size_t submatrixRow = reverseRows[row];
+    size_t submatrixRow = row < numRows ? reverseRows[row] : SIZE_MAX;
     if (submatrixRow == SIZE_MAX)
     {
       CMR_CALL( CMRfreeStackArray(cmr, &reverseColumns) );
@@ -146,7 +146,7 @@ CMR_ERROR CMRsubmatSlice(CMR* cmr, CMR_SUBMAT* base, CMR_SUBMAT* input, CMR_SUBM
   for (size_t c = 0; c < input->numColumns; ++c)
   {
     size_t column = input->columns[c];
-    size_t submatrixColumn = reverseColumns[column];
+    size_t submatrixColumn = column < numColumns ? reverseColumns[column] : SIZE_MAX;
     if (submatrixColumn == SIZE_MAX)
     {
       CMR_CALL( CMRfreeStackArray(cmr, &reverseColumns) );
@@ -1938,7 +1938,8 @@ CMR_ERROR CMRdblmatCheckTranspose(CMR* cmr, CMR_DBLMAT* matrix1, CMR_DBLMAT* mat
     {
       size_t column1 = matrix1->entryColumns[entry1];
       size_t entry2 = currentColumn1[column1];
-      if (matrix2->entryColumns[entry2] != row1 || matrix2->entryValues[entry2] != matrix1->entryValues[entry1])
+      if (entry2 >= matrix2->rowSlice[column1 + 1]
+        || matrix2->entryColumns[entry2] != row1 || matrix2->entryValues[entry2] != matrix1->entryValues[entry1])
       {
         *pareTranspose = false;
         goto cleanup;
@@ -1982,7 +1983,8 @@ CMR_ERROR CMRintmatCheckTranspose(CMR* cmr, CMR_INTMAT* matrix1, CMR_INTMAT* mat
     {
       size_t column1 = matrix1->entryColumns[entry1];
       size_t entry2 = currentColumn1[column1];
-      if (matrix2->entryColumns[entry2] != row1 || matrix2->entryValues[entry2] != matrix1->entryValues[entry1])
+      if (entry2 >= matrix2->rowSlice[column1 + 1]
+        || matrix2->entryColumns[entry2] != row1 || matrix2->entryValues[entry2] != matrix1->entryValues[entry1])
       {
         *pareTranspose = false;
         goto cleanup;
@@ -2026,7 +2028,8 @@ CMR_ERROR CMRchrmatCheckTranspose(CMR* cmr, CMR_CHRMAT* matrix1, CMR_CHRMAT* mat
     {
       size_t column1 = matrix1->entryColumns[entry1];
       size_t entry2 = currentColumn1[column1];
-      if (matrix2->entryColumns[entry2] != row1 || matrix2->entryValues[entry2] != matrix1->entryValues[entry1])
+      if (entry2 >= matrix2->rowSlice[column1 + 1]
+        || matrix2->entryColumns[entry2] != row1 || matrix2->entryValues[entry2] != matrix1->entryValues[entry1])
       {
         *pareTranspose = false;
         goto cleanup;
